@@ -3,11 +3,11 @@ import os
 import sys
 
 TIERS = {
-    # property: tier -> (runs, wall budget seconds)
-    'C11': {'quick': (640, 150), 'thorough': (16000, 1200)},
-    'C12': {'quick': (480, 150), 'thorough': (12000, 1200)},
-    'C14': {'quick': (640, 150), 'thorough': (16000, 1200)},
-    'C15': {'quick': (480, 150), 'thorough': (12000, 1200)},
+    # property: tier -> (runs, wall budget seconds); a batch stops at whichever comes first
+    'C11': {'quick': (1200, 150), 'thorough': (60000, 1500)},
+    'C12': {'quick': (900, 150), 'thorough': (60000, 1500)},
+    'C14': {'quick': (1000, 150), 'thorough': (40000, 1500)},
+    'C15': {'quick': (600, 200), 'thorough': (20000, 1500)},
 }
 
 ENV = {'PYTHONHASHSEED': '0', 'OMP_NUM_THREADS': '1', 'OPENBLAS_NUM_THREADS': '1',
